@@ -97,6 +97,22 @@ impl Graph {
     }
 }
 
+/// a reference to a declared name in another letter case than its declaration (identifiers are
+/// case-insensitive): lower, UPPER or Capitalised, chosen from the hash
+fn recase(name: &str, z: u64) -> String {
+    match mix(z ^ 0xca5e) % 3 {
+        0 => name.to_string(),
+        1 => name.to_ascii_uppercase(),
+        _ => {
+            let mut c = name.chars();
+            match c.next() {
+                Some(f) => f.to_ascii_uppercase().to_string() + c.as_str(),
+                None => String::new(),
+            }
+        }
+    }
+}
+
 /// node = FUNCTION_BLOCK, edge = an instance variable of the target type
 pub fn realise_fb(g: &Graph, salt: u64, arrays: bool) -> (String, Vec<(usize, usize)>) {
     let mut soft = vec![];
@@ -112,9 +128,9 @@ pub fn realise_fb(g: &Graph, salt: u64, arrays: bool) -> (String, Vec<(usize, us
                 if arrays && (z >> 8) % 4 == 0 {
                     // an array of instances (whether that "contains an instance" is not settled: soft edge)
                     soft.push((i, j));
-                    s.push_str(&format!("{}\ninst{}_{} : ARRAY[1..2] OF fb{};\nEND_VAR\n", kw, i, j, j));
+                    s.push_str(&format!("{}\ninst{}_{} : ARRAY[1..2] OF {};\nEND_VAR\n", kw, i, j, recase(&format!("fb{}", j), z ^ (i * 31 + j) as u64)));
                 } else {
-                    s.push_str(&format!("{}\ninst{}_{} : fb{};\nEND_VAR\n", kw, i, j, j));
+                    s.push_str(&format!("{}\ninst{}_{} : {};\nEND_VAR\n", kw, i, j, recase(&format!("fb{}", j), z ^ (i * 31 + j) as u64)));
                 }
                 any = true;
             }
@@ -173,21 +189,21 @@ pub fn realise_type(g: &Graph, salt: u64, arrays: bool) -> (String, Vec<(usize, 
             s.push_str(&format!("t{} : (v{}a, v{}b);\n", i, i, i));
         } else if outdeg[i] == 1 && alias[i] {
             let j = (0..g.n).find(|&j| g.adj[i][j]).unwrap();
-            s.push_str(&format!("t{} : t{};\n", i, j));
+            s.push_str(&format!("t{} : {};\n", i, recase(&format!("t{}", j), salt ^ (i * 31 + j) as u64)));
         } else if outdeg[i] == 1 && arrays && mix(salt ^ (i as u64 * 77)) % 4 == 0 {
             // an array type whose elements are of the target type
             let j = (0..g.n).find(|&j| g.adj[i][j]).unwrap();
             soft.push((i, j));
-            s.push_str(&format!("t{} : ARRAY[1..2] OF t{};\n", i, j));
+            s.push_str(&format!("t{} : ARRAY[1..2] OF {};\n", i, recase(&format!("t{}", j), salt ^ (i * 31 + j) as u64)));
         } else {
             s.push_str(&format!("t{} : STRUCT\n", i));
             for j in 0..g.n {
                 if g.adj[i][j] {
                     if arrays && mix(salt ^ ((i * 16 + j) as u64 * 131)) % 4 == 0 {
                         soft.push((i, j));
-                        s.push_str(&format!("e{}_{} : ARRAY[0..1] OF t{};\n", i, j, j));
+                        s.push_str(&format!("e{}_{} : ARRAY[0..1] OF {};\n", i, j, recase(&format!("t{}", j), salt ^ (i * 31 + j) as u64)));
                     } else {
-                        s.push_str(&format!("e{}_{} : t{};\n", i, j, j));
+                        s.push_str(&format!("e{}_{} : {};\n", i, j, recase(&format!("t{}", j), salt ^ (i * 31 + j) as u64)));
                     }
                 }
             }
@@ -230,9 +246,9 @@ pub fn realise_mixed(g: &Graph, salt: u64, arrays: bool) -> Option<(String, Vec<
                 if g.adj[i][j] {
                     if arrays && mix(salt ^ ((i * 16 + j) as u64 * 977)) % 4 == 0 {
                         soft.push((i, j));
-                        s.push_str(&format!("inst{}_{} : ARRAY[1..2] OF {};\n", i, j, name(j)));
+                        s.push_str(&format!("inst{}_{} : ARRAY[1..2] OF {};\n", i, j, recase(&name(j), salt ^ (i * 31 + j) as u64)));
                     } else {
-                        s.push_str(&format!("inst{}_{} : {};\n", i, j, name(j)));
+                        s.push_str(&format!("inst{}_{} : {};\n", i, j, recase(&name(j), salt ^ (i * 31 + j) as u64)));
                     }
                     any = true;
                 }
@@ -248,9 +264,9 @@ pub fn realise_mixed(g: &Graph, salt: u64, arrays: bool) -> Option<(String, Vec<
                 if g.adj[i][j] {
                     if arrays && mix(salt ^ ((i * 16 + j) as u64 * 613)) % 4 == 0 {
                         soft.push((i, j));
-                        s.push_str(&format!("e{}_{} : ARRAY[0..1] OF {};\n", i, j, name(j)));
+                        s.push_str(&format!("e{}_{} : ARRAY[0..1] OF {};\n", i, j, recase(&name(j), salt ^ (i * 31 + j) as u64)));
                     } else {
-                        s.push_str(&format!("e{}_{} : {};\n", i, j, name(j)));
+                        s.push_str(&format!("e{}_{} : {};\n", i, j, recase(&name(j), salt ^ (i * 31 + j) as u64)));
                     }
                     any = true;
                 }
@@ -373,7 +389,7 @@ pub fn run(ctx: &Ctx) -> i32 {
         ctx.tier,
         ctx.seed,
         "exploration",
-        "directed graphs with self-loops: ALL graphs on 1..4 nodes (2+16+512+65536, exhaustive) and random graphs on 5..12 nodes (edge density drawn per case, DAG-biased half of the time with an optional single back edge), each realised as a function-block instance graph (VAR / VAR_INPUT / VAR_OUTPUT instances) as a type graph (alias / structure element) and as a mixed graph (every node a function block or a structure, edges = instance variables / structure elements; in a third of the graphs a quarter of the edges go through ARRAY OF and are soft: cycles only through them are not judged), declarations in a seed-derived order. Oracle: reference DFS cycle test (cross-checked by transitive closure for n<=4): cyclic => P0010 or P0013 reported; acyclic => neither. Non-trivial: >= 2 nodes and >= 1 edge; distinct by program text.",
+        "directed graphs with self-loops: ALL graphs on 1..4 nodes (2+16+512+65536, exhaustive) and random graphs on 5..12 nodes (edge density drawn per case, DAG-biased half of the time with an optional single back edge), each realised as a function-block instance graph (VAR / VAR_INPUT / VAR_OUTPUT instances) as a type graph (alias / structure element) and as a mixed graph (every node a function block or a structure, edges = instance variables / structure elements; in a third of the graphs a quarter of the edges go through ARRAY OF and are soft: cycles only through them are not judged), declarations in a seed-derived order, every reference spelled in lower, UPPER or Capitalised case. Oracle: reference DFS cycle test (cross-checked by transitive closure for n<=4): cyclic => P0010 or P0013 reported; acyclic => neither. Non-trivial: >= 2 nodes and >= 1 edge; distinct by program text.",
     );
     // exhaustive part
     let mut items: Vec<(usize, u64)> = vec![];
